@@ -83,7 +83,8 @@ func worldNatHole(w *World) {
 	scfg := map[string]any{
 		"bindAddr": "10.0.0.1", "bindPort": 7000,
 		"auth":      map[string]any{"token": token},
-		"transport": map[string]any{"tcpMux": tcpMux, "heartbeatTimeout": -1},
+		"transport":       map[string]any{"tcpMux": tcpMux, "heartbeatTimeout": -1},
+		"userConnTimeout": 3,
 	}
 	env := w.newLcEnv(scfg, token, PeerOpts{Server: "10.0.0.1:7000", Mux: tcpMux, Token: token})
 	env.start()
@@ -172,6 +173,27 @@ func worldNatHole(w *World) {
 		return owner.NatSidList[len(owner.NatSidList)-1]
 	}
 
+	// a transient fault first: for a while the owner does not deliver the work connections the server asks for, so
+	// that some session ids cannot be handed over. Those requests fail; everything after the fault is owed full service.
+	if w.KnobBool("owner_misses_workconns", 30) {
+		w.Probe("nathole.owner_misses_workconns")
+		owner.smu.Lock()
+		owner.WorkMode = wmNever
+		owner.smu.Unlock()
+		for j := 0; j < 4; j++ {
+			ts := time.Now().Unix()
+			tid := fmt.Sprintf("miss%d", j)
+			from := len(vis.Inbox)
+			addr := fmt.Sprintf("198.51.100.%d:%d", 10+j, 4000+j)
+			vis.Send(tNatHoleVisitor, M{"transaction_id": tid, "proxy_name": "px", "protocol": "quic", "sign_key": authKey(sk, ts), "timestamp": ts,
+				"mapped_addrs": []string{addr, addr}})
+			waitResp(vis, from, tid, 45*time.Second)
+		}
+		owner.smu.Lock()
+		owner.WorkMode = wmGood
+		owner.smu.Unlock()
+		time.Sleep(2 * time.Second)
+	}
 	nsessions := w.KnobPick("nsessions", 2, 5, 12)
 	var g0 int
 	for i := 0; i < nsessions; i++ {
@@ -385,6 +407,22 @@ func worldNatHole(w *World) {
 			}
 			sid := lastSid()
 			owner.Send(tNatHoleClient, M{"transaction_id": tc, "proxy_name": "px", "sid": sid, "mapped_addrs": []string{oa, oa}, "assisted_addrs": []string{oa}})
+			// leftovers of an earlier rendezvous of the same peers (a late answer carrying another session id, properly
+			// encrypted with the proxy's key) may be waiting in either socket: they are to be ignored, nothing more
+			strays := false
+			if w.KnobBool("makehole_stray_datagrams", 50) {
+				strays = true
+				if stray, err := simnet.ListenUDP("udp4", &net.UDPAddr{IP: net.ParseIP("10.0.5.3")}); err == nil {
+					for k := 0; k < 1+round%2; k++ {
+						if b, err := nathole.EncodeMessage(&msg.NatHoleSid{Sid: fmt.Sprintf("stale-%d-%d", round, k), Response: true, Nonce: "xxxxxxxx"}, []byte(sk)); err == nil {
+							stray.WriteToUDP(b, vconn.LocalAddr().(*net.UDPAddr))
+							stray.WriteToUDP(b, oconn.LocalAddr().(*net.UDPAddr))
+							w.Probe("nathole.stray_datagram")
+						}
+					}
+					stray.Close()
+				}
+			}
 			type res struct {
 				addr  string
 				err   error
@@ -414,6 +452,11 @@ func worldNatHole(w *World) {
 				break
 			}
 			if r1.err != nil || r2.err != nil {
+				if strays {
+					// (every message of the exchange is decoded from a socket in which another, well-formed message had been
+					// waiting: what a peer acts on must be the message as it was encoded, whatever was read before it)
+					w.Violate("C17", "decode", "message-read-after-another-not-acted-on-as-encoded", "hole punching between two honest peers fails when a well-formed message of another session is waiting in their sockets (and only then): %v / %v", r1.err, r2.err)
+				}
 				viol("makehole", "peers-do-not-meet", "rendezvous %d of the same two peers (no success reported so far): peers at %s and %s following their instructions (%v / %v) did not find each other: %v / %v", round+1, va, oa, r1.instr, r2.instr, r1.err, r2.err)
 				break
 			} else if !((r1.addr == va && r2.addr == oa) || (r1.addr == oa && r2.addr == va)) {
